@@ -13,8 +13,7 @@ var vKindNames = []string{"plain", "BIRT", "RESI", "EVEN", "DATE", "_UID", "NAME
 func vDateValue(name string) string {
 	switch VsChoose(name+".dateform", 5) {
 	case 0:
-		// (year 0000 included: it parses, but to the zero date)
-		return VsDecimal(VsInt(name+".y", 0, 2999), 4)
+		return VsDecimal(VsInt(name+".y", 1000, 2999), 4)
 	case 1:
 		VsClass("constrained-date")
 		return "Abt. " + VsDecimal(VsInt(name+".y", 1000, 2999), 4)
@@ -48,6 +47,9 @@ func vNewNodeOfKind(name string, kind int) Node {
 		return NewNode(TagName, "Ann /"+VsBytes(name+".sn", 1, 0x41, 0x5a)+"/", "")
 	case 7:
 		return NewNode(TagPlace, VsBytes(name+".pl", 1, 0x41, 0x5a), "")
+	case 8:
+		// an early year written with leading zeros; 0000 parses, but to the zero date (copy harness only)
+		return NewNode(TagDate, VsDecimal(VsInt(name+".y0", 0, 999), 4), "")
 	}
 	return NewNode(TagFromString("ZZ"), VsBytes(name+".v", 1, 0x41, 0x5a), "")
 }
@@ -99,7 +101,7 @@ func vSharesNode(a, b Node) bool {
 // cs: n = cs%3+1, shape = cs/3%2.
 func VerifC07_Copy(cs int) {
 	n, shape := cs%3+1, cs/3%2
-	t := vBuildTree("t", n, shape, len(vKindNames), len(vKindNames))
+	t := vBuildTree("t", n, shape, len(vKindNames)+1, len(vKindNames)+1) // kind 8: early years, 0000 included
 	before := t.GEDCOMString(0)
 	cp := DeepCopy(t, NewDocument())
 	VsObserve(before)
